@@ -29,8 +29,32 @@ ASSUMPTIONS = ['statements inside the standard library are not preemption points
                'every thread is a fresh thread or a worker serving requests one after another; the application object is the module default app (redirect needs it)']
 
 KINDS = ['echo', 'post', 'raise_resp', 'abort', 'crash', 'nf', 'na', 'big', 'redirect', 'gen', 'multipart', 'json', 'chunked', 'noname_json',
-         'chunked_form', 'echo10', 'redirect10', 'session']
+         'chunked_form', 'echo10', 'redirect10', 'session', 'static', 'static_denied']
 _APP = {}
+
+
+_STATIC = {}
+
+
+def static_root():
+    """<base>/www is the served root; <base>/secret-<marker>.txt lie above it"""
+    if 'base' not in _STATIC:
+        import atexit
+        import shutil
+        import tempfile
+        base = tempfile.mkdtemp(prefix='vmon-c08-', dir='/dev/shm' if os.path.isdir('/dev/shm') else None)
+        os.mkdir(os.path.join(base, 'www'))
+        atexit.register(shutil.rmtree, base, True)
+        _STATIC['base'] = base
+    return _STATIC['base']
+
+
+def static_files_for(m):
+    base = static_root()
+    for p, content in ((os.path.join(base, 'www', 'ok-' + m + '.txt'), ('public file of ' + m + ' ') * 3), (os.path.join(base, 'secret-' + m + '.txt'), 'SECRET above the root, ' + m)):
+        if not os.path.exists(p):
+            with open(p, 'w') as f:
+                f.write(content)
 
 
 def get_app():
@@ -136,6 +160,9 @@ def get_app():
     app.add_hook('after_request', lambda: rs.headers.__setitem__('X-Hook-After', rq.method + ' ' + rq.path + '?' + rq.query_string) if rs._headers is not None else None)
     app.on_route('/echo', lambda prefix: rs.headers.__setitem__('X-Route-Hook', prefix + '|' + rq.query_string))
 
+    from ombott.static_stream import static_file
+    www = os.path.join(static_root(), 'www')
+    app.route('/static/<name:path>', 'GET', lambda name: static_file(name, root=www))
     app.route('/session', 'GET', session)
     app.route('/mp', 'POST', multipart)
     app.route('/json', 'POST', json_)
@@ -201,6 +228,9 @@ def make_env(kind, m):
         return make_environ('GET', '/echo/' + m, qs='m=' + m, headers={'X-M': m, 'Cookie': 'c=' + m, 'Host': m + '.example:8080'}, flavour='http10')
     if kind == 'redirect10':
         return make_environ('GET', '/redirect', qs='m=' + m, headers={'Host': m + '.example'}, flavour='http10')
+    if kind in ('static', 'static_denied'):
+        static_files_for(m)
+        return make_environ('GET', '/static/ok-' + m + '.txt' if kind == 'static' else '/static/../secret-' + m + '.txt', qs='m=' + m)
     if kind == 'session':
         from ombott.common_helpers import cookie_encode
         return make_environ('GET', '/session', qs='m=' + m, headers={'Cookie': 'sess="' + cookie_encode(('sess', {'n': 1, 'log': ['start']}), 'k').decode() + '"'})
@@ -245,7 +275,7 @@ class Lab:
             res, info = self.sched.run([job(self.app, [(kind, m)])], [])
             assert res[0][0] == 'ok', res
             status = res[0][1][0][0]
-            expect_ok = kind in ('echo', 'post', 'raise_resp', 'gen', 'multipart', 'json', 'chunked', 'redirect', 'chunked_form', 'echo10', 'redirect10', 'session')
+            expect_ok = kind in ('echo', 'post', 'raise_resp', 'gen', 'multipart', 'json', 'chunked', 'redirect', 'chunked_form', 'echo10', 'redirect10', 'session', 'static')
             if expect_ok and not status.startswith(('2', '3')):
                 raise AssertionError(f'harness: kind {kind} is meant to succeed but answers {status} when served alone: {res[0][1][0][2][:200]!r}')
             # the reference itself must be clean: a request served alone cannot carry what earlier requests of this process brought
@@ -297,7 +327,7 @@ class Lab:
 
 PAIRS_QUICK = [('echo', 'echo'), ('echo', 'post'), ('raise_resp', 'echo'), ('crash', 'abort'), ('big', 'big'), ('nf', 'redirect'), ('gen', 'echo'), ('na', 'post'),
                ('multipart', 'json'), ('json', 'echo'), ('chunked', 'chunked'), ('chunked', 'post'), ('noname_json', 'noname_json'), ('multipart', 'multipart'),
-               ('chunked_form', 'chunked_form'), ('chunked_form', 'echo'), ('echo10', 'echo10'), ('redirect10', 'echo10'), ('session', 'session')]
+               ('chunked_form', 'chunked_form'), ('chunked_form', 'echo'), ('echo10', 'echo10'), ('redirect10', 'echo10'), ('session', 'session'), ('static', 'static_denied'), ('static', 'static')]
 
 
 def one_preemption(ctx, lab, a, b, stride=1):
